@@ -1,3 +1,140 @@
-/-! C06 model (stub) -/
+/-!
+# C06 model: fan-out consumer, pipeline capability, connector aggregate capability
+
+Mirrors `internal/fanoutconsumer/{logs,metrics,traces,profiles}.go` (`NewLogs`, `logsConsumer.ConsumeLogs`,
+`Capabilities`), `service/internal/graph/graph.go` (capabilities node in `buildComponents`) and
+`service/internal/graph/connector.go` (`aggregateCap`).
+
+Consumers are numbered by their position in the slice given to `NewLogs`; `caps[i]` is consumer
+`i`'s declared `MutatesData`.
+-/
 namespace OtelVerif.C06
+
+/-- which object a consumer is handed: the caller's payload, or the k-th `cloneLogs` of it -/
+inductive Obj | orig | clone (k : Nat)
+deriving DecidableEq, Repr
+
+structure Delivery where
+  consumer : Nat
+  obj : Obj
+deriving DecidableEq, Repr
+
+/-- positions (counted from `i`) whose capability equals `b`, in order: the `mutable` / `readonly`
+slices built by `NewLogs` -/
+def idxWhere (b : Bool) : List Bool → Nat → List Nat
+  | [], _ => []
+  | c :: cs, i => if c = b then i :: idxWhere b cs (i + 1) else idxWhere b cs (i + 1)
+
+def mutableIdx (caps : List Bool) : List Nat := idxWhere true caps 0
+def readonlyIdx (caps : List Bool) : List Nat := idxWhere false caps 0
+
+/-- `Capabilities()` of the fan-out consumer.  (`NewLogs` returns the consumer itself when there is
+exactly one, non-mutating, consumer; that unwrapping is unobservable: the formulas below give the
+same capability, deliveries and marking for `caps = [false]`.) -/
+def fanCap (caps : List Bool) : Bool := !(mutableIdx caps).isEmpty && (readonlyIdx caps).isEmpty
+
+/-- the loop over `lsc.mutable`: every mutating consumer but the last gets clone `k, k+1, …`;
+the last gets the original iff `lastGetsOrig` -/
+def mutDeliveries (lastGetsOrig : Bool) : List Nat → Nat → List Delivery
+  | [], _ => []
+  | [c], k => [⟨c, if lastGetsOrig then .orig else .clone k⟩]
+  | c :: c' :: rest, k => ⟨c, .clone k⟩ :: mutDeliveries lastGetsOrig (c' :: rest) (k + 1)
+
+def roDeliveries (r : List Nat) : List Delivery := r.map (fun c => ⟨c, .orig⟩)
+
+/-- `len(lsc.readonly) == 0 && !ld.IsReadOnly()` -/
+def lastGetsOrig (caps : List Bool) (inputRO : Bool) : Bool := (readonlyIdx caps).isEmpty && !inputRO
+
+/-- calls made by `ConsumeLogs`, in call order -/
+def deliveries (caps : List Bool) (inputRO : Bool) : List Delivery :=
+  mutDeliveries (lastGetsOrig caps inputRO) (mutableIdx caps) 0 ++ roDeliveries (readonlyIdx caps)
+
+/-- `len(lsc.readonly) > 1 && !ld.IsReadOnly()` → `ld.MarkReadOnly()` -/
+def marksRO (caps : List Bool) (inputRO : Bool) : Bool := decide ((readonlyIdx caps).length > 1) && !inputRO
+
+/-! ## contents: a small heap of payload objects -/
+
+structure Heap where
+  orig : Nat                      -- content of the caller's payload
+  origRO : Bool                   -- its shared read-only state
+  clones : List (Nat × Nat) := [] -- clone id ↦ content (clones are always mutable)
+deriving DecidableEq, Repr
+
+def Heap.read (h : Heap) : Obj → Option Nat
+  | .orig => some h.orig
+  | .clone k => h.clones.lookup k
+
+def setClone (k v : Nat) : List (Nat × Nat) → List (Nat × Nat)
+  | [] => []
+  | (k', v') :: rest => if k' = k then (k', v) :: setClone k v rest else (k', v') :: setClone k v rest
+
+/-- a mutation through the public API: panics (second component) and changes nothing when the
+object is read-only (pdata `AssertMutable`, property C07) -/
+def Heap.write (h : Heap) (o : Obj) (v : Nat) : Heap × Bool :=
+  match o with
+  | .orig => if h.origRO then (h, true) else ({ h with orig := v }, false)
+  | .clone k => ({ h with clones := setClone k v h.clones }, false)
+
+structure Seen where
+  consumer : Nat
+  obj : Obj
+  atCall : Option Nat   -- content the consumer was given, at call time
+  ro : Bool             -- `IsReadOnly()` of what it was given
+  panicked : Bool       -- its synchronous write panicked
+deriving DecidableEq, Repr
+
+/-- one call: the clone (if any) is made from the current original right before the call
+(`cloneLogs(ld)` is the argument expression), the consumer reads, then possibly writes during the
+call (`syncW c = some v`) -/
+def call (syncW : Nat → Option Nat) (h : Heap) (d : Delivery) : Heap × Seen :=
+  let h1 : Heap := match d.obj with
+    | .orig => h
+    | .clone k => { h with clones := (k, h.orig) :: h.clones }
+  let ro := match d.obj with | .orig => h1.origRO | .clone _ => false
+  match syncW d.consumer with
+  | none => (h1, ⟨d.consumer, d.obj, h1.read d.obj, ro, false⟩)
+  | some v => ((h1.write d.obj v).1, ⟨d.consumer, d.obj, h1.read d.obj, ro, (h1.write d.obj v).2⟩)
+
+def callAll (syncW : Nat → Option Nat) : Heap → List Delivery → Heap × List Seen
+  | h, [] => (h, [])
+  | h, d :: ds =>
+    let (h1, s) := call syncW h d
+    let (h2, ss) := callAll syncW h1 ds
+    (h2, s :: ss)
+
+/-- `ld.MarkReadOnly()` when `b` -/
+def markRO (b : Bool) (h : Heap) : Heap := if b then { h with origRO := true } else h
+
+/-- heap after the calls to the mutating consumers -/
+def heapA (caps : List Bool) (inputRO : Bool) (c0 : Nat) (syncW : Nat → Option Nat) : Heap × List Seen :=
+  callAll syncW { orig := c0, origRO := inputRO } (mutDeliveries (lastGetsOrig caps inputRO) (mutableIdx caps) 0)
+
+/-- `ConsumeLogs`: mutable phase, marking, read-only phase -/
+def runFan (caps : List Bool) (inputRO : Bool) (c0 : Nat) (syncW : Nat → Option Nat) : Heap × List Seen :=
+  let a := heapA caps inputRO c0 syncW
+  let b := callAll syncW (markRO (marksRO caps inputRO) a.1) (roDeliveries (readonlyIdx caps))
+  (b.1, a.2 ++ b.2)
+
+/-- object handed to consumer `c` -/
+def objOf (ds : List Delivery) (c : Nat) : Option Obj := (ds.find? (fun d => d.consumer = c)).map (·.obj)
+
+/-- later (asynchronous) writes: consumer `c` writes `v` to whatever it was handed -/
+def asyncWrites (ds : List Delivery) (h : Heap) : List (Nat × Nat) → Heap
+  | [] => h
+  | (c, v) :: ws =>
+    match objOf ds c with
+    | some o => asyncWrites ds (h.write o v).1 ws
+    | none => asyncWrites ds h ws
+
+/-- returned error: the failures of all consumers, in call order (`multierr.Append`) -/
+def errorsOf (ds : List Delivery) (fails : Nat → Bool) : List Nat := (ds.map (·.consumer)).filter fails
+
+/-! ## pipeline level -/
+
+/-- capabilities node: `fanOutNode.Capabilities().MutatesData || any processor mutates` -/
+def pipelineCap (procs exporters : List Bool) : Bool := fanCap exporters || procs.any id
+
+/-- `aggregateCap(base, nexts)` for a same-signal connector -/
+def aggregateCap (base : Bool) (nexts : List Bool) : Bool := base || nexts.any id
+
 end OtelVerif.C06
